@@ -883,16 +883,27 @@ class Tr:
                 if swapped:
                     s = ast.If(test=test, body=list(s.orelse), orelse=list(s.body))
                 c = self.cond(s.test, st, sc)
-                if self.has_return(s.body) or self.has_return(s.orelse):
+                split = self.has_return(s.body) or self.has_return(s.orelse)
+                if not split:
+                    # pure branches: execute both, join the states ...
+                    pa, pb = Scope(sc), Scope(sc)
+                    pa.pure_branch = pb.pure_branch = True
+                    fresh0 = self.fresh
+                    try:
+                        sta = self.pure_block(s.body, st, pa)
+                        stb = self.pure_block(s.orelse, st, pb)
+                    except Unsupported as e:
+                        if "non-returning branch" not in str(e):
+                            raise
+                        # ... unless a branch performs an operation that can raise (first read of an index, to_bytes, ...):
+                        # then the rest of the function is continued separately in each branch
+                        self.fresh = fresh0
+                        split = True
+                if split:
                     sa, sb = Scope(sc), Scope(sc)
                     ta = self.emit_scope(sa, self.block(list(s.body) + rest, st, sa))
                     tb = self.emit_scope(sb, self.block(list(s.orelse) + rest, st, sb))
                     return f"if {c} then\n{textwrap.indent(ta, '  ')}\nelse\n{textwrap.indent(tb, '  ')}"
-                # pure branches: execute both, join the states
-                pa, pb = Scope(sc), Scope(sc)
-                pa.pure_branch = pb.pure_branch = True
-                sta = self.pure_block(s.body, st, pa)
-                stb = self.pure_block(s.orelse, st, pb)
                 for k in set(sta) | set(stb):
                     a, b = sta.get(k), stb.get(k)
                     if a is None or b is None:
